@@ -79,6 +79,9 @@ int main(int argc, char** argv) {
           seeds::Opt o; o.sets = {PS(10000, 1000000000, 0)}; o.blocks = 2; o.per_block = 2; o.qr_from = 2; Node root = parse_exact(seeds::make(o));
           for (auto& blk : root.kids[2].kids) for (size_t i = 0; i + 1 < blk.kids.size(); i += 2) if (blk.kids[i].is_uint() && blk.kids[i].arg == 0) { Node& pre = blk.kids[i + 1]; for (size_t j = 0; j + 1 < pre.kids.size(); j += 2) if (pre.kids[j].is_uint() && pre.kids[j].arg == 1) { pre.kids.erase(pre.kids.begin() + j, pre.kids.begin() + j + 2); break; } }
           add("J", encode(root)); }
+        { // K: like A but with an empty block (preamble only) between its blocks and an empty block at the end - valid, and to be skipped by the merge
+          Node root = parse_exact(pool[0].bytes); Node& blocks = root.kids[2]; Node empty = mk_map({mk_uint(0), mk_map({mk_uint(0), mk_array({mk_uint(1600000000), mk_uint(0)}), mk_uint(1), mk_uint(0)})});
+          blocks.kids.insert(blocks.kids.begin() + 1, empty); blocks.kids.push_back(empty); add("K", encode(root)); }
         { PoolFile z; z.name = "Z"; z.path = g_dir + "/in_Z_missing"; pool.push_back(z); }
         if (!pool[7].valid || !pool[8].valid || pool[8].rf.blocks.empty() || pool[8].rf.blocks[0].has_bpi) { fprintf(stderr, "pool file I or J invalid\n"); return done(2); }
         size_t N = pool.size();
@@ -132,7 +135,7 @@ int main(int argc, char** argv) {
             run_tuple(tuples[i], R);
         }, [&](uint64_t, const std::string& d, Result& R) { R.violation("merge|harness-crash", d.substr(0, 500), pl.last_note); }, total);
         total.n["evaluations"] = total.n["traces"];
-        total.notes.push_back("pool: A(1 set,1e6 tps,3 blocks) B(2 sets,1e3 tps,reduced hints,4 blocks) C(1e9 tps, QR hints 0) D(minor version 5) E(private version 9) G(300 non-CDNS bytes) H(B cut inside block 2) I(valid, zero blocks) J(10^9 ticks, blocks without block-parameters-index) Z(missing)");
+        total.notes.push_back("pool: A(1 set,1e6 tps,3 blocks) B(2 sets,1e3 tps,reduced hints,4 blocks) C(1e9 tps, QR hints 0) D(minor version 5) E(private version 9) G(300 non-CDNS bytes) H(B cut inside block 2) I(valid, zero blocks) J(10^9 ticks, blocks without block-parameters-index) K(A with two empty blocks) Z(missing)");
         return done(0);
     }
 
